@@ -1,11 +1,12 @@
 (* C03 - Go values placed into JavaScript arrive as data only.
    This file holds property statements only; each is closed by [exact].
    Model: model/JsEsc.v (replacement tables regenerated from the live code into gen/Tables03.v).
-   Specification: spec/JsLex.v.   Proofs: proofs/JsEscProof.v. *)
+   Specification: spec/JsLex.v, spec/JsScript.v (whole script elements).   Proofs: proofs/JsEscProof.v, proofs/JsScriptProof.v.
+   Script parser model: model/JsTrack.v. *)
 From Coq.Strings Require Import Byte String.
 From Coq Require Import List NArith Bool.
 Import ListNotations.
-From V Require Import lib.Bytes lib.Utf8 spec.JsLex model.JsEsc proofs.JsEscProof.
+From V Require Import lib.Bytes lib.Utf8 spec.JsLex spec.JsScript model.JsEsc model.JsTrack proofs.JsEscProof proofs.JsScriptProof.
 
 (* ---- values placed INSIDE a string literal ('...', "..." or `...`) --------------------------------- *)
 
@@ -98,6 +99,95 @@ Print Assumptions C03_fn_name_inert.
 Theorem C03_call_attr_inert : forall (name : bytes) (ps : list param), attr_inert (safe_script name ps) = true.
 Proof. exact safe_script_attr_inert. Qed.
 Print Assumptions C03_call_attr_inert.
+
+(* ---- whole script elements: the author's text with holes ----------------------------------------------------- *)
+(* spec/JsScript.v reads a script element's text as a JavaScript lexer does (literals of the three kinds with their
+   escape sequences, comments, script text) - on the template, where hole i stands for the Go string vals[i] as data,
+   and on a rendering.  [skeleton] is the token sequence with the literals' values left out: every run of script text
+   and every comment byte for byte, and where the literals are.
+
+   If every hole is escaped for its TRUE lexical position (ScriptContentInsideStringLiteral inside a literal,
+   ScriptContentOutsideStringLiteral in script text), the rendering has the token structure of the author's template:
+   no value adds, removes, splits or joins a token.  (The literals' values are the subject of
+   C03_script_content_inside and C03_json_roundtrip_partial.)  [lexes_cleanly]: the template lexes without stopping,
+   its text is cut at rune boundaries, and no "$" of the author stands directly before a hole in a template literal. *)
+Theorem C03_values_confined_partial : forall (vals : list bytes) (tpl : list sym),
+  lexes_cleanly vals tpl = true ->
+  skeleton (lex_script [] (bytes_syms (render (positions (lex_script vals tpl)) vals tpl))) = skeleton (lex_script vals tpl).
+Proof. exact values_confined. Qed.
+Print Assumptions C03_values_confined_partial.
+
+(* The full statement (without the "$" clause) is false of the faithful model - a genuine defect, recorded as known
+   finding dollar-before-hole-in-template-literal: in  a = `$<hole>`;  the value {x} is escaped to {x} ("{" is left as it
+   is), and the author's "$" and the value's "{" open an interpolation. *)
+Definition syms (s : string) : list sym := map SB (bs s).
+Definition tpl_dollar : list sym := syms "a = `$" ++ [SH 0] ++ syms "`;".
+Definition vals_dollar : list bytes := [bs "{x}"].
+Example C03_values_confined_refuted :
+  walk (fun m s => ok_junction_no_dollar vals_dollar m s && ok_tracker m s) vals_dollar (MCode []) tpl_dollar = true /\
+  fragment vals_dollar tpl_dollar = false /\
+  positions (lex_script vals_dollar tpl_dollar) = [true] /\
+  flags (track (tpl_dollar ++ map SB end_tag)) = [true] /\
+  toks_of (lex_script [] (bytes_syms (render [true] vals_dollar tpl_dollar))) = [TCode (bs "a = "); TStop x49] /\
+  toks_of (lex_script vals_dollar tpl_dollar) = [TCode (bs "a = "); TStr (Some (bs "${x}")); TCode (bs ";")].
+Proof. vm_compute. repeat split; reflexivity. Qed.
+(* the author's way out, an escaped dollar, is inside the fragment *)
+Example C03_ex_dollar_escaped : fragment vals_dollar (syms "a = `\$" ++ [SH 0] ++ syms "`;") = true.
+Proof. vm_compute. reflexivity. Qed.
+
+(* templ's script parser (model/JsTrack.v, mirror of parser/v2/scriptparser.go) recognises every hole, gives each the
+   InsideStringLiteral flag of its lexical position, and ends the contents exactly at the end tag - on the fragment
+   [tracker_fragment]: the template lexes without stopping and ends in script text; no backslash and no "</" in script
+   text; no "</" right after a hole inside a literal; no CR, U+2028, U+2029 inside a line comment.  Escaped backslashes,
+   escaped quotes, backslash runs of either parity, the other quote kinds and comment openers inside literals, quotes
+   inside comments are all inside the fragment. *)
+Theorem C03_tracker_agrees_partial : forall (vals : list bytes) (tpl : list sym),
+  tracker_fragment vals tpl = true ->
+  track (tpl ++ map SB end_tag) = map FHole (positions (lex_script vals tpl)) ++ [FEnd (length tpl)].
+Proof. exact tracker_agrees. Qed.
+Print Assumptions C03_tracker_agrees_partial.
+
+(* Without the guard the statement is false of the faithful model:  a = '<hole></b>';  - the parser ends the element's
+   contents at the "</" it meets right after the expression, whatever the quote state. *)
+Definition tpl_endtag : list sym := syms "a = '" ++ [SH 0] ++ syms "</b>';".
+Example C03_tracker_agrees_refuted :
+  lexes_cleanly [bs "p"] tpl_endtag = true /\ tracker_fragment [bs "p"] tpl_endtag = false /\
+  track (tpl_endtag ++ map SB end_tag) = [FHole true; FEnd 6] /\
+  map FHole (positions (lex_script [bs "p"] tpl_endtag)) ++ [FEnd (length tpl_endtag)] = [FHole true; FEnd 12].
+Proof. vm_compute. repeat split; reflexivity. Qed.
+
+(* Both together: what the parser, the generator and the runtime emit for a script element (each hole through the
+   escaper the PARSER's flag selects) has the token structure of the author's template. *)
+Theorem C03_script_structure_partial : forall (vals : list bytes) (tpl : list sym),
+  fragment vals tpl = true ->
+  skeleton (lex_script [] (bytes_syms (render (flags (track (tpl ++ map SB end_tag))) vals tpl))) = skeleton (lex_script vals tpl).
+Proof. exact script_structure. Qed.
+Print Assumptions C03_script_structure_partial.
+
+(* a literal that ends in an escaped backslash, then a hole in script text: the hole is outside, the value is quoted *)
+Definition tpl_path : list sym := syms "a = ""C:\\""; b = " ++ [SH 0].
+Example C03_ex_escaped_backslash :
+  fragment [bs "alert(1)"] tpl_path = true /\ flags (track (tpl_path ++ map SB end_tag)) = [false] /\
+  render [false] [bs "alert(1)"] tpl_path = bs "a = ""C:\\""; b = ""alert(1)""".
+Proof. vm_compute. repeat split; reflexivity. Qed.
+
+(* Regression for the defect repaired in 3c0a15d (shape comment-opener-after-hole-in-literal): in
+     a = "<hole>//x";  (line break)  b = <hole>
+   the loop as it was (track_legacy: comment parsers tried right after every expression, whatever the quote state)
+   swallowed the rest of that line as a comment, stayed inside the literal and flagged the second hole as in-literal, so its value alert(1)
+   was emitted as script text; the loop as it is gives the lexical positions, and the template is in the fragment. *)
+Definition tpl_comment : list sym := syms "a = """ ++ [SH 0] ++ syms "//x"";" ++ [SB x0a] ++ syms "b = " ++ [SH 1].
+Definition vals_comment : list bytes := [bs "p"; bs "alert(1)"].
+Example C03_comment_after_hole_regression :
+  fragment vals_comment tpl_comment = true /\
+  flags (track (tpl_comment ++ map SB end_tag)) = [true; false] /\
+  positions (lex_script vals_comment tpl_comment) = [true; false] /\
+  flags (track_legacy (tpl_comment ++ map SB end_tag)) = [true; true] /\
+  toks_of (lex_script [] (bytes_syms (render [true; true] vals_comment tpl_comment))) =
+    [TCode (bs "a = "); TStr (Some (bs "p//x")); TCode (bs ";" ++ [x0a] ++ bs "b = alert(1)")] /\
+  toks_of (lex_script vals_comment tpl_comment) =
+    [TCode (bs "a = "); TStr (Some (bs "p//x")); TCode (bs ";" ++ [x0a] ++ bs "b = "); TStr (Some (bs "alert(1)"))].
+Proof. vm_compute. repeat split; reflexivity. Qed.
 
 (* ---- non-vacuity and witnesses ---------------------------------------------------------------------------- *)
 (* single quote, double quote, backtick, dollar, braces, less-than, slash, script, greater-than, ampersand *)
